@@ -16,12 +16,15 @@ RULE = ("cases = API call sequences over 1..4 processes (pids 100..999, duplicat
 TRUSTED = ["harness h_fxprof/src/prof.rs (calls the public API, prints serde_json::to_string)", "vlib/c03.py: which JSON column points into which table (the index-column catalogue below), "
            "the rendering of frames as content ids (label text / library name + relative address), the expected resolution of addresses against the mappings added at process creation (C11 covers mapping semantics)",
            "pids, tids and names are generated with fixed digit widths so that the crate's string comparisons agree with the numeric comparisons of the model"]
-ASSUMPTIONS = ["the handle discipline the API documents: handles are used with the thread / process they were created for", "counters and allocation samples only where the format allows them; no JS frames / frame flags, no allocation samples (listed in DESIGN.md as not covered)"]
+ASSUMPTIONS = ["the handle discipline the API documents: handles are used with the thread / process they were created for", "counters and allocation samples only where the format allows them; allocation samples on the first thread of a process (elsewhere: known finding F-C03a)"]
 _state = {}
 
 
 def prove():
     return K.prove(PROP, extra_targets=["Tie/C03.vo"])
+
+
+_case_no = [0]
 
 
 def gen(tier, rng, scale):
@@ -131,7 +134,15 @@ def gen(tier, rng, scale):
             for _ in range(rng.range(0, 4)):
                 cat_op()
 
+        use_flags = rng.chance(1, 3)
+
         def with_sc(tok):
+            tok = _with_sc(tok)
+            if use_flags and rng.chance(1, 3):
+                tok += "!%d" % rng.choice([1, 2, 3])       # FrameFlags: IS_JS, IS_RELEVANT_FOR_JS, both
+            return tok
+
+        def _with_sc(tok):
             if not use_cats or not rng.chance(1, 3):
                 return tok
             r = rng.below(4)
@@ -154,6 +165,9 @@ def gen(tier, rng, scale):
                 else:
                     out.append(with_sc(rng.choice(frames_pool)))
             return out
+        # allocation samples: 0 = none, 1 = on first threads only, 2 = on any thread (the known finding F-C03a when it is not the first thread)
+        alloc_mode = rng.choice([0, 0, 1, 1, 1, 1]) if _case_no[0] % 12 != 11 else 2
+        _case_no[0] += 1
         gkinds = []
         for g in range(rng.choice([0, 1, 2, 2, 3])):
             kinds = "".join(rng.choice("uuspznn") for _ in range(rng.choice([0, 1, 1, 2, 3, 4])))
@@ -178,7 +192,8 @@ def gen(tier, rng, scale):
                 else:
                     fr = pick_frames(th, 0, 6)
                 stacks_pool.append((th, fr))
-                ops.append(["S", th, t, rng.choice([1, 1, 2]), ] + fr)
+                # one sample in five builds its stack with a single handle_for_stack_frames call
+                ops.append(["S2" if rng.chance(1, 5) else "S", th, t, rng.choice([1, 1, 2]), ] + fr)
             elif r < 66 and threads:
                 th = rng.below(len(threads))
                 t = times.get(th, 100) + rng.range(1, 50)
@@ -202,6 +217,14 @@ def gen(tier, rng, scale):
                 t = times.get(th, 100) + rng.range(1, 50)
                 times[th] = t
                 ops.append(["J", th, t, rng.choice(["mk", "lay", "~"]), rng.choice(["txt", "foo", "~"])])       # a static marker type with a category of its own
+            elif r < 76 and threads and alloc_mode:
+                # an allocation sample; by default on the first thread of its process (where the samples of the whole process are kept)
+                firsts = [i for i, p in enumerate(threads) if threads.index(p) == i]
+                th = rng.choice(firsts) if alloc_mode == 1 else rng.below(len(threads))
+                t = times.get(th, 100) + rng.range(1, 50)
+                times[th] = t
+                fr = pick_frames(th, 0, 5)
+                ops.append(["B", th, t, 4096 * rng.range(1, 100), rng.choice([16, 64, -64, 4096])] + fr)
             elif r < 80:
                 p = rng.below(nproc)
                 ops.append(["C", p, "ctr%d" % counters])
@@ -228,7 +251,7 @@ def _valid(ops):
     def sc_ok(f):
         if not isinstance(f, str) or "^" not in f:
             return True
-        sc = f.split("^", 1)[1]
+        sc = f.split("^", 1)[1].split("!", 1)[0]
         if sc[0] == "c":
             return int(sc[1:]) < nq[0]
         if sc[0] == "s":
@@ -250,10 +273,14 @@ def _valid(ops):
             if o[1] >= nt or o[2] >= nl:
                 continue
             hs.append(o[1])
-        elif k == "S":
+        elif k in ("S", "S2"):
             if o[1] >= nt:
                 continue
             o = o[:4] + frames_ok(o[1], o[4:])
+        elif k == "B":
+            if o[1] >= nt:
+                continue
+            o = o[:5] + frames_ok(o[1], o[5:])
         elif k == "K":
             if o[1] >= nt:
                 continue
@@ -312,6 +339,7 @@ IDX = {"stackTable": [("prefix", "stackTable"), ("frame", "frameTable")],
        "resourceTable": [("lib", "@libs"), ("name", "@strings")],
        "nativeSymbols": [("libIndex", "@libs"), ("name", "@strings")],
        "samples": [("stack", "stackTable")],
+       "nativeAllocations": [("stack", "stackTable")],
        "markers": [("name", "@strings"), ("category", "@categories")]}
 BAD = 999999999
 
@@ -340,6 +368,8 @@ def _thread_json(th, nlibs, ncats, kb):
         return th[name]["length"]
     tables = []
     for name, idxcols in IDX.items():
+        if name not in th:
+            continue                  # nativeAllocations only exists on threads that hold allocation samples
         tb = th[name]
         cols = [len(v) for k, v in tb.items() if isinstance(v, list)]
         idx = []
@@ -397,6 +427,7 @@ def _coq_case(ops, prof):
     samples, mstacks, visible, selected, counters = [], [], [], [], []
     mops, nschemas, gtypes, text_ty = [], 0, [], None
     mcats, layout_ty = [], [None]
+    allocs = []
     kb = _kinds_by_type(ops)
     KIND = {"u": "KUnique", "s": "KStr", "p": "KStr", "z": "KStr", "n": "KNum"}
     symtabs = {}
@@ -471,15 +502,19 @@ def _coq_case(ops, prof):
         def append(self, x, sc=None):
             list.append(self, x)
             req_sc.append(sc)
+            req_fl.append(0)
     req_sc = []
+    req_fl = []
     reqs = ReqList()
 
     def request(th, p, f):
         """the table request a frame causes (same resolution as `expect`)"""
+        f, _, fl = f.partition("!")
         f, _, sc = f.partition("^")
         scj = sc_request(sc or None)
         _request(th, p, f)
         req_sc[-1] = scj
+        req_fl[-1] = int(fl or 0)
 
     def _request(th, p, f):
         if f[0] == "l":
@@ -509,8 +544,9 @@ def _coq_case(ops, prof):
     def expect(th, p, f):
         """content id of the frame the caller named: (function name, library, relative address, file, line, column, inline depth, native symbol) and
         the category, colour and subcategory names"""
+        f, _, fl = f.partition("!")
         f, _, sc = f.partition("^")
-        return I(("FC", _expect(th, p, f), sc_named(sc or None)))
+        return I(("FC", _expect(th, p, f), sc_named(sc or None), int(fl or 0)))
 
     def _expect(th, p, f):
         if f[0] == "l":
@@ -571,9 +607,13 @@ def _coq_case(ops, prof):
             nsh.append((o[1], o[2], o[3]))
             ns_first.setdefault((o[1], o[2], o[3]), o[5])
             reqs.append("(%d%%nat, FNs %d%%nat %d %d)" % (o[1], o[2], o[3], S(o[5])))
-        elif k == "S":
+        elif k in ("S", "S2"):
             samples.append((o[1], o[2], [expect(o[1], threads[o[1]][0], f) for f in o[4:]]))
             for f in o[4:]:
+                request(o[1], threads[o[1]][0], f)
+        elif k == "B":
+            allocs.append((o[1], o[2], [expect(o[1], threads[o[1]][0], f) for f in o[5:]]))
+            for f in o[5:]:
                 request(o[1], threads[o[1]][0], f)
         elif k == "G":
             kinds = "" if o[2] == "-" else o[2]
@@ -647,7 +687,8 @@ def _coq_case(ops, prof):
                 if not (isinstance(ci, int) and isinstance(si, int) and ci >= 0 and si >= 0):
                     raise ValueError("category")
                 cat = prof["meta"]["categories"][ci]
-                fids.append(I(("FC", I(("F", name, lib, addr, fl, ft["line"][i], ft["column"][i], ft["inlineDepth"][i], ns)), (cat["name"], cat["color"], cat["subcategories"][si]))))
+                flags = (1 if fu["isJS"][f] else 0) | (2 if fu["relevantForJS"][f] else 0)
+                fids.append(I(("FC", I(("F", name, lib, addr, fl, ft["line"][i], ft["column"][i], ft["inlineDepth"][i], ns)), (cat["name"], cat["color"], cat["subcategories"][si]), flags)))
             except Exception:
                 fids.append(I(("BAD", i)))
         st = th["stackTable"]
@@ -675,7 +716,7 @@ def _coq_case(ops, prof):
     for th in prof["threads"]:
         ft, fu, rt = th["frameTable"], th["funcTable"], th["resourceTable"]
         oN = lambda l: K.coq_list(["None" if x is None else "(Some %d)" % x for x in l])
-        otables.append("(%s, %s, %s, %s, %s, %s, %s, %s, %s, %s, %s, (%s, %s, %s, %s), (%s, %s))" % (
+        otables.append("(%s, %s, %s, %s, %s, %s, %s, %s, %s, %s, %s, (%s, %s, %s, %s), (%s, %s), (%s, %s))" % (
             K.coq_list([str(S(x)) for x in th["stringArray"]]),
             K.coq_list(["%d%%nat" % x for x in rt["lib"]]), K.coq_list(["%d%%nat" % x for x in rt["name"]]),
             K.coq_list(["%d%%nat" % x for x in fu["name"]]), K.coq_list([_opt(x) for x in fu["resource"]]),
@@ -686,7 +727,8 @@ def _coq_case(ops, prof):
             K.coq_list(["%d%%nat" % x for x in th["nativeSymbols"]["name"]]),
             K.coq_list([_opt(x) for x in fu["fileName"]]), oN(ft["line"]), oN(ft["column"]), K.coq_list([str(x) for x in ft["inlineDepth"]]),
             K.coq_list(["%d%%nat" % (x if isinstance(x, int) and x >= 0 else BAD) for x in ft["category"]]),
-            K.coq_list(["%d%%nat" % (x if isinstance(x, int) and x >= 0 else BAD) for x in ft["subcategory"]])))
+            K.coq_list(["%d%%nat" % (x if isinstance(x, int) and x >= 0 else BAD) for x in ft["subcategory"]]),
+            K.coq_list(["true" if x else "false" for x in fu["isJS"]]), K.coq_list(["true" if x else "false" for x in fu["relevantForJS"]])))
     obmarkers = []
     for th in prof["threads"]:
         strings = th["stringArray"]
@@ -729,7 +771,18 @@ def _coq_case(ops, prof):
         obcats.append("(%d, %d, %s)" % (S(c.get("name")), COLORS.index(col) if col in COLORS else BAD, K.coq_list([str(S(x)) for x in c.get("subcategories", [])])))
     assert len(req_sc) == len(reqs)
     obmcats = [K.coq_list(["%d%%nat" % (x if isinstance(x, int) and x >= 0 else BAD) for x in th["markers"]["category"]]) for th in prof["threads"]]
-    return "(mkCase %s %s %s %s %s %s %s %s %s %s %s %s %s %s %s %s %d 12 %s %s %s %s %s)" % (
+    oballocs = []
+    for th in prof["threads"]:
+        na = th.get("nativeAllocations")
+        rows = []
+        if isinstance(na, dict):
+            for j in range(na.get("length", 0)):
+                try:
+                    rows.append("(%d, %s)" % (int(round(na["time"][j] * 1e6)), _opt(na["stack"][j])))
+                except Exception:
+                    rows.append("(0, Some %d%%nat)" % BAD)
+        oballocs.append(K.coq_list(rows))
+    return "(mkCase %s %s %s %s %s %s %s %s %s %s %s %s %s %s %s %s %d 12 %s %s %s %s %s %s %s %s)" % (
         K.coq_list(["(%d, %d)" % p for p in procs]),
         K.coq_list(["(%d%%nat, %d, %d, %s, %s)" % (t[0], t[1], t[2], "true" if t[3] else "false", "None" if t[4] is None else "(Some %d)" % t[4]) for t in threads]),
         K.coq_list(["(%d%%nat, %d, %s)" % (h, t, nat(fr)) for h, t, fr in samples]),
@@ -738,7 +791,8 @@ def _coq_case(ops, prof):
         nat(meta.get("initialVisibleThreads", [])), nat(meta.get("initialSelectedThreads", [])), K.coq_list(obc),
         K.coq_list(reqs), K.coq_list(oblibs), K.coq_list(otables), K.coq_list(mops), K.coq_list(obmarkers),
         S("Other"), K.coq_list(cops), K.coq_list(["None" if x is None else "(Some %d%%nat)" % x for x in req_sc]), K.coq_list(obcats),
-        K.coq_list(["(%d%%nat, %s)" % (t, "None" if j is None else "(Some %d%%nat)" % j) for t, j in mcats]), K.coq_list(obmcats))
+        K.coq_list(["(%d%%nat, %s)" % (t, "None" if j is None else "(Some %d%%nat)" % j) for t, j in mcats]), K.coq_list(obmcats),
+        K.coq_list([str(x) for x in req_fl]), K.coq_list(["(%d%%nat, %d, %s)" % (h, t, nat(fr)) for h, t, fr in allocs]), K.coq_list(oballocs))
 
 
 def evaluate(cases):
@@ -775,6 +829,8 @@ def evaluate(cases):
         stats["named_subcategories"] = stats.get("named_subcategories", 0) + sum(max(len(c.get("subcategories", [])) - 1, 0) for c in prof["meta"].get("categories", []))
         stats["frames_outside_default_category"] = stats.get("frames_outside_default_category", 0) + sum(1 for th in prof["threads"] for a, b in zip(th["frameTable"]["category"], th["frameTable"]["subcategory"]) if a or b)
         stats["markers_outside_default_category"] = stats.get("markers_outside_default_category", 0) + sum(1 for th in prof["threads"] for a in th["markers"]["category"] if a)
+        stats["allocation_samples"] = stats.get("allocation_samples", 0) + sum(th.get("nativeAllocations", {}).get("length", 0) for th in prof["threads"])
+        stats["funcs_with_js_flags"] = stats.get("funcs_with_js_flags", 0) + sum(1 for th in prof["threads"] for a, b in zip(th["funcTable"]["isJS"], th["funcTable"]["relevantForJS"]) if a or b)
         stats["counters"] += len(prof.get("counters", []))
         stats["visible_refs"] += len(prof["meta"].get("initialVisibleThreads", []))
         c["_summary"] = {"threads": [(t["pid"], t["tid"], t["name"], t["isMainThread"]) for t in prof["threads"]],
@@ -796,6 +852,14 @@ def evaluate(cases):
 
 
 def known(case):
+    """F-C03a: an allocation sample with a stack, added for a thread that is not the first thread of its process"""
+    first, threads = {}, []
+    for o in _valid(case["items"]):
+        if o[0] == "T":
+            first.setdefault(o[1], len(threads))
+            threads.append(o[1])
+        elif o[0] == "B" and len(o) > 5 and first.get(threads[o[1]]) != o[1]:
+            return K.known_line(PROP, "F-C03a")
     return None
 
 
